@@ -79,6 +79,7 @@ fn gen_lib_case(t: &mut Tape, lib: &Lib, excluded: &[String]) -> ValCase {
         int_pool: int_pool(),
         float_pool: float_pool(),
         str_pool: str_pool(),
+        empty_containers: false,
     };
     // random finite doubles by bit pattern join the pool for this case
     for _ in 0..3 {
